@@ -27,7 +27,11 @@ class SimpleCookieJar:
 
     def add(self, set_cookie: Optional[str]) -> None:
         if set_cookie:
-            simple_cookie = http.cookies.SimpleCookie(set_cookie)
+            try:
+                simple_cookie = http.cookies.SimpleCookie(set_cookie)
+            except http.cookies.CookieError:
+                # a malformed Set-Cookie header sent by the server is ignored
+                return
 
             for v in simple_cookie.values():
                 if domain := v.get("domain"):
@@ -45,7 +49,11 @@ class SimpleCookieJar:
 
     def set(self, set_cookie: str) -> None:
         if set_cookie:
-            simple_cookie = http.cookies.SimpleCookie(set_cookie)
+            try:
+                simple_cookie = http.cookies.SimpleCookie(set_cookie)
+            except http.cookies.CookieError:
+                # a malformed Set-Cookie header sent by the server is ignored
+                return
 
             for v in simple_cookie.values():
                 if domain := v.get("domain"):
